@@ -2,13 +2,13 @@ SPECIFICATION FairSpec
 CONSTANTS
   Servers = {"s1", "s2", "s3"}
   NWorkers = 2
-  Q = 2
+  Q = 3
   StartFirst = FALSE
   KeyIds = {"k1", "k2"}
   DirectOutcomes = {"ok", "err", "bad"}
   NotaryOutcomes = {"ok", "err", "missing", "bad"}
   HasLocal = TRUE
-  CtxModes = {"live"}
+  CtxModes = {"live", "before", "deadline", "mid"}
   StopOnDone = FALSE
-INVARIANTS TypeOK ExactUnion EachServerOnce NothingEarly QueueBound
+INVARIANTS TypeOK ExactUnion EachServerOnce NothingEarly QueueBound GoneBeforeTheCall
 PROPERTIES Returns
